@@ -9,6 +9,78 @@ import (
 
 func (c *Ctx) byteC(b byte) *Term { return NumC(big.NewInt(int64(b)), c.byteSort()) }
 
+// String literals are interned: literal number n has identity -(n+1) and content value n.
+var strLits = map[string]int{}
+var strLitList []string
+
+func litCode(s string) int {
+	if n, ok := strLits[s]; ok {
+		return n
+	}
+	n := len(strLitList)
+	strLits[s] = n
+	strLitList = append(strLitList, s)
+	return n
+}
+
+func (c *Ctx) modeTag() string {
+	if c.BV {
+		return "bv"
+	}
+	return "int"
+}
+
+// strOfID builds the string value with identity id (a literal when id is a negative constant).
+func (c *Ctx) strOfID(st *State, id *Term) StrV {
+	if isNum(id) && id.Val.Sign() < 0 {
+		n := int(-id.Val.Int64() - 1)
+		if n < len(strLitList) {
+			return conc(strLitList[n])
+		}
+	}
+	ln := App("str.len."+c.modeTag(), c.IntSort(), id)
+	st.assume(Cmp(">=", ln, c.idx(0), true))
+	st.assume(Cmp("<=", ln, NumC(new(big.Int).Lsh(big.NewInt(1), 40), c.IntSort()), true))
+	arr := App("str.arr."+c.modeTag(), ArraySort(c.IntSort(), c.byteSort()), id)
+	return StrV{ID: id, Arr: arr, Off: c.idx(0), Len: ln}
+}
+
+// strID gives an Int identity to any string value (fresh identity with defining facts for derived strings).
+func (c *Ctx) strID(st *State, s StrV) *Term {
+	if s.ID != nil {
+		return s.ID
+	}
+	if s.Conc != nil {
+		return IntC(int64(-(litCode(*s.Conc) + 1)))
+	}
+	if s.Spec == "ite" {
+		return Ite(s.SArgs[0].(*Term), c.strID(st, s.SArgs[1].(StrV)), c.strID(st, s.SArgs[2].(StrV)))
+	}
+	if s.Arr != nil {
+		id := Fresh("strid", IntSort)
+		st.assume(Cmp(">=", id, IntC(0), true))
+		n := c.strOfID(st, id)
+		st.assume(Eq(n.Len, s.Len))
+		k := BoundVar("k", c.IntSort())
+		st.assume(Forall([]*Term{k}, Implies(And(Cmp("<=", c.idx(0), k, true), Cmp("<", k, s.Len, true)),
+			Eq(Select(n.Arr, k), Select(s.Arr, Arith("+", s.Off, k))))))
+		return id
+	}
+	unsupported("identity of string %s", showValue(s))
+	return nil
+}
+
+// strVal is the content value of a string identity: equal strings have equal content values.
+func (c *Ctx) strVal(id *Term) *Term {
+	if isNum(id) && id.Val.Sign() < 0 {
+		return IntC(-id.Val.Int64() - 1)
+	}
+	if id.Op == "ite" {
+		return Ite(id.Args[0], c.strVal(id.Args[1]), c.strVal(id.Args[2]))
+	}
+	return App("str.val", IntSort, id)
+}
+
 // flattenRope returns the pieces of a string value (concrete pieces merged).
 func flattenRope(s StrV) []StrV {
 	var out []StrV
@@ -152,6 +224,16 @@ func (c *Ctx) strEq(st *State, a, b StrV) *Term {
 		if len(str) > 256 {
 			unsupported("comparing with long concrete string")
 		}
+		if b.ID != nil && !b.ID.open && len(str) <= 64 {
+			// content value equals the literal's code exactly when length and bytes agree (defining fact)
+			bs := []*Term{Eq(b.Len, c.idx(int64(len(str))))}
+			for i := 0; i < len(str); i++ {
+				bs = append(bs, Eq(c.strAt(st, b, c.idx(int64(i))), c.byteC(str[i])))
+			}
+			eq := Eq(c.strVal(b.ID), IntC(int64(litCode(str))))
+			st.assume(Eq(eq, And(bs...)))
+			return eq
+		}
 		cs := []*Term{Eq(b.Len, c.idx(int64(len(str))))}
 		for i := 0; i < len(str); i++ {
 			cs = append(cs, Eq(c.strAt(st, b, c.idx(int64(i))), c.byteC(str[i])))
@@ -161,9 +243,14 @@ func (c *Ctx) strEq(st *State, a, b StrV) *Term {
 	if a.Arr == b.Arr && a.Off == b.Off && a.Len == b.Len {
 		return True()
 	}
-	k := BoundVar("k", c.IntSort())
-	return And(Eq(a.Len, b.Len), Forall([]*Term{k}, Implies(And(Cmp("<=", c.idx(0), k, true), Cmp("<", k, a.Len, true)),
-		Eq(c.strAt(st, a, k), c.strAt(st, b, k)))))
+	// two symbolic strings: equality of content values (an equivalence relation by construction); equal
+	// content implies equal length.  Derived strings get a fresh identity with defining facts.
+	ia, ib := c.strID(st, a), c.strID(st, b)
+	eq := Eq(c.strVal(ia), c.strVal(ib))
+	if !eq.IsTrue() && !eq.IsFalse() && !eq.open {
+		st.assume(Implies(eq, Eq(a.Len, b.Len)))
+	}
+	return eq
 }
 
 // ropeEq: piecewise equality of two ropes; sound (equal pieces => equal strings), and complete
